@@ -166,4 +166,12 @@ def lfeval (args : List String) : String :=
       | .v none => "v:none"
   | _ => "bad-op"
 
+/-- op: lforrhs <SE json of the left side> → true|false: is the right side of `l or ... r` declared unused -/
+def lforrhs (args : List String) : String :=
+  match args with
+  | [js] => match Json.parse js with
+    | .error _ => "bad-op"
+    | .ok j => toString (Pint.StaticFlow.orRhsDead (seOf j))
+  | _ => "bad-op"
+
 end Driver.C04
